@@ -443,7 +443,7 @@ func TestVerifC18K8s(t *testing.T) {
 		idx++
 	}
 
-	for _, c := range c18KCorpus() {
+	for _, c := range append(c18KCorpus(), c18.LoadCorpus[c18KCase]("k8s")...) {
 		emit("corpus", c)
 	}
 
